@@ -48,9 +48,10 @@ def enc_missing(chk, program):
             at = defaults()
             at.update(fields=A.AList(list(fields)), PGN=A.AInt(1), id=A.AStr([('lit', 'x')]))
             return A.AObj(**at)
+        menv = A.ModuleEnv(program.mod('message').tree)          # one module for the whole history: what a call leaves at module level is seen by the next
         def look(msg, fid):
             try:
-                return ('return', A.Interp(methods=methods).call_function(fn, [msg, A.AStr([('lit', fid)])]))
+                return ('return', A.Interp(methods=methods, module=menv).call_function(fn, [msg, A.AStr([('lit', fid)])]))
             except A.RaiseSignal as r:
                 return ('raise', A.exc_kind(r))
         def run(fields, fid):
@@ -67,6 +68,10 @@ def enc_missing(chk, program):
         got['after-assigning-a-new-list::old'] = look(m2, 'a'); want['after-assigning-a-new-list::old'] = ('raise', 'ValueError')
         m3 = message([fa]); look(m3, 'b'); m3.attrs['fields'].items.append(fb)
         got['after-append'] = look(m3, 'b'); want['after-append'] = ('return', fb)
+        # ... and of THIS message: another message of the same PGN whose fields are laid out differently (another definition of the number, a repeated set)
+        look(message([fa, fb]), 'b')
+        got['other-message-same-pgn-other-layout'] = look(message([fb, fd, fa]), 'b'); want['other-message-same-pgn-other-layout'] = ('return', fb)
+        got['other-message-same-pgn-shorter'] = look(message([fa]), 'b'); want['other-message-same-pgn-shorter'] = ('raise', 'ValueError')
         ok = all(got[k][0] == want[k][0] and (got[k][1] is want[k][1] if want[k][0] == 'return' else got[k][1] == want[k][1]) for k in want)
         chk.check(ok, 'ENC-MISSING', 'NMEA2000Message.get_field_by_id', file='nmea2000/message.py', line=fn.lineno, func='get_field_by_id',
                   expected='first field of the current field list with f.id == id, else raise ValueError (no path returns None / a default / a field the message no longer has)',
